@@ -22,7 +22,7 @@ func init() {
 			"every constant request version stored anywhere in the library is guarded by a configured-version test that implies the version the request type itself requires, so Broker.send cannot refuse it with ErrUnsupportedVersion (C19.version); the fan-out operations pair every WaitGroup.Add with a Done (C12.pairing, shared). " +
 			"the per-item verdicts the operations read are decoded one object per item (C09.fresh-element over the admin responses, shared). " +
 			"NOT covered: number of controller moves versus Retry.Max at run time, the brokers' verdicts themselves.",
-		Rules: []func(*Ctx){c19Attempt, c19AttemptLocal, c19PerRequestFresh, c19Controller, c19Verdict, c19KErrorOrdered, c19Routing, c19Version, c19VersionFloor, c12Pairing, c15Brokers, c19ErrLost, c15Deadline, c19FreshElement},
+		Rules: []func(*Ctx){c19Attempt, c19AttemptLocal, c19PerRequestFresh, c19Controller, c19Verdict, c19KErrorOrdered, c19Routing, c19Version, c19VersionFloor, c12Pairing, c15Brokers, c19ErrLost, c15Deadline, c19FreshElement, c19FailureEndsFanOut},
 	})
 }
 
